@@ -21,7 +21,7 @@ def unique_index(run, thorough):
                 label="MC_UniqueIndex(composite=%s)" % comp)
         for late in ("FALSE", "TRUE"):
             src = os.path.join(run.tmp, "uq-%s-%s.ndjson" % (comp, late))
-            run.tlc("UniqueIndex_gen.tla", "gen_uq_%s_%s.cfg" % (comp, late), mode="simulate", workers=1, sim="num=%d" % (300 if thorough else 40), extra=["-depth", "9"], timeout=600,
+            run.tlc("UniqueIndex_gen.tla", "gen_uq_%s_%s.cfg" % (comp, late), mode="simulate", workers=1, sim="num=%d" % (600 if thorough else 100), extra=["-depth", "9"], timeout=600,
                     env={"VERIF_OUT": src}, cfg_text=UQ.format(steps=9, comp=comp, late=late, body="ACTION_CONSTRAINT ExportLeaves"), label="GEN_UniqueIndex(composite=%s,late=%s)" % (comp, late))
             if not os.path.exists(src):
                 raise vlib.Infra("no unique-index histories exported")
